@@ -590,20 +590,80 @@ def c07_r1(ctx, f, layouts=None, degrees=None):
                       "%s/V%02d" % (l, v), "block + generator do not fit the division buffer (start would underflow)",
                       expected="<= %d" % K, found=longest + dg + 1,
                       sample="%s/V%02d: block %d + generator %d <= %d" % (l, v, longest, dg + 1, K))
-    # zero skip: the loop `continue` is control dependent on `elem == 0` where elem is later the table index
-    found = False
+    # zero skip: the tests in the division loop that mention the dividend element rem[i] are evaluated for every byte value
+    # of that element; the set of values for which the subtraction step is skipped must be exactly {0} (log 0 is undefined,
+    # every other coefficient has a logarithm and must be subtracted)
+    from .mir import subexprs as _sub
+
+    def is_elem(e):
+        # an element of a non-constant byte buffer
+        return e[0] == "index" and e[1][0] != "K"
+
+    def ev(e, x, elem):
+        if e == elem:
+            return x
+        k = e[0]
+        if k == "K":
+            return e[1]
+        if k == "cast":
+            v = ev(e[2], x, elem)
+            return v if isinstance(v, int) else None
+        if k == "index":
+            base = ev(e[1], x, elem)
+            i = ev(e[2], x, elem)
+            if isinstance(base, tuple) and isinstance(i, int) and 0 <= i < len(base):
+                return base[i]
+            return None
+        if k in ("bin", "ovf"):
+            a, b = ev(e[2], x, elem), ev(e[3], x, elem)
+            if not isinstance(a, int) or not isinstance(b, int):
+                return None
+            op = e[1]
+            try:
+                return {"Add": a + b, "Sub": a - b, "Mul": a * b, "BitAnd": a & b, "BitOr": a | b, "BitXor": a ^ b,
+                        "Eq": int(a == b), "Ne": int(a != b), "Lt": int(a < b), "Le": int(a <= b), "Gt": int(a > b),
+                        "Ge": int(a >= b), "Rem": a % b if b else None, "Div": a // b if b else None}.get(op)
+            except Exception:  # noqa: BLE001
+                return None
+        return None
+
+    tests = []
     for b in range(fn.n):
         bt = fn.bool_test(b) if fn.live[b] else None
         if not bt:
             continue
         c = fn.canon(bt[0], bt[3])
-        if c[0] == "bin" and c[1] in ("Eq", "Ne") and ((c[3][0] == "K" and c[3][1] == 0) or (c[2][0] == "K" and c[2][1] == 0)):
-            elem = c[2] if c[3][0] == "K" else c[3]
-            if elem[0] == "index":
-                found = True
-    ctx.check(rid, found, fn.path + "/zero-skip", where_fn(fn), fn.path, "zero test on the dividend element",
-              "no test of the dividend coefficient against zero before the log lookup (log 0 is undefined)",
-              sample="zero coefficients are skipped before the log-table lookup")
+        elems = [e for e in _sub(c) if is_elem(e)]
+        if not elems or not fn.in_loop(b):
+            continue
+        tests.append((b, bt, c, elems[0]))
+    xor_blocks = [b["id"] for b in fn.blocks if not b["cleanup"] and any(
+        st["k"] == "assign" and st["rv"]["k"] == "bin" and st["rv"]["op"] == "BitXor" for st in b["stmts"])]
+    if not tests:
+        ctx.check(rid, False, fn.path + "/zero-skip", where_fn(fn), fn.path, "zero test on the dividend element",
+                  "no test of the dividend coefficient against zero before the log lookup (log 0 is undefined)")
+    elif len(tests) != 1 or len(xor_blocks) != 1:
+        ctx.abstain(rid, "division step has %d tests on the dividend element and %d xor stores: skip set not computed" % (
+            len(tests), len(xor_blocks)), where_fn(fn))
+    else:
+        b, bt, c, elem = tests[0]
+        # which edge avoids the subtraction step?
+        t_reach = fn.reaches(bt[1], xor_blocks[0], avoiding_blocks=(b,)) if bt[1] != b else False
+        f_reach = fn.reaches(bt[2], xor_blocks[0], avoiding_blocks=(b,)) if bt[2] != b else False
+        if t_reach == f_reach:
+            ctx.abstain(rid, "cannot tell which edge of the dividend test skips the subtraction step", fn.where(bt[3]))
+        else:
+            skip_on = not t_reach  # value of the condition on which the step is skipped
+            vals = [ev(c, x, elem) for x in range(256)]
+            if any(v is None for v in vals):
+                ctx.abstain(rid, "skip condition of the division step is not evaluable over the byte values: %s" % str(c)[:120],
+                            fn.where(bt[3]))
+            else:
+                skipped = [x for x in range(256) if bool(vals[x]) == skip_on]
+                ctx.check(rid, skipped == [0], fn.path + "/zero-skip", fn.where(bt[3]), fn.path, "coefficient values skipped by the division step",
+                          "the subtraction step must be skipped exactly for a zero coefficient (log 0 is undefined; every other "
+                          "coefficient must be subtracted)", expected=[0], found=skipped[:8],
+                          sample="division step skipped exactly for coefficient value 0 (decided over all 256 byte values)")
 
 
 # ---------------------------------------------------------------------------
